@@ -129,7 +129,17 @@ fn check_root(neg: bool, a: &[u64], n: u32) -> Verdict {
                 }
             }
         }
-        // signed results
+        // signed results: cbrt and nth_root of the BigInt in the no_std build against the in-process ones
+        let want_cbrt = format!("{:x}", x.cbrt());
+        let f = nbcase::exec::field(&out, "cbrt").unwrap_or("");
+        if f != want_cbrt {
+            return Err(format!("std and no_std ({}) disagree on BigInt::cbrt: {} vs {}", name, want_cbrt, f));
+        }
+        let want_nth = if n == 0 || (r.neg && n % 2 == 0) { "PANIC".to_string() } else { format!("{:x}", x.nth_root(n)) };
+        let f = nbcase::exec::field(&out, "nth").unwrap_or("");
+        if f != want_nth {
+            return Err(format!("std and no_std ({}) disagree on BigInt::nth_root({}): {} vs {}", name, n, want_nth, f));
+        }
         let want_sqrt = if r.neg { "PANIC".to_string() } else { format!("{:x}", x.sqrt()) };
         let f = nbcase::exec::field(&out, "sqrt").unwrap_or("");
         if f != want_sqrt {
@@ -146,6 +156,7 @@ fn check_root(neg: bool, a: &[u64], n: u32) -> Verdict {
         .class_if(r.neg, "negative")
         .class_if(n == 0, "zeroth_root")
         .class_if(r.neg, "even_root_of_negative")
+        .class_if(n > 100 && (n as u64) < bits, "degree_between_100_and_bit_length")
         .class_if(n >= 1000, "huge_degree"))
 }
 
@@ -190,8 +201,15 @@ impl Property for C11 {
             let v = if v.bits() != bits { Nat::pow2(bits - 1) } else { v };
             Case::new("root", vec![Arg::Z(false, v.to_u64_digits()), Arg::U(n as u128)])
         });
+        // degrees in the band between ~100 and the bit length: n = bits(x) / k (large degree, root of a few bits)
+        let band = (gen::big_nat(vec![17, 20, 33, 40, big.min(64), big]), 2u64..=24, -1i64..=1, any::<bool>()).prop_map(|(a, k, d, neg)| {
+            let bits = Nat::from_u64_digits(&a).bits();
+            let n = ((bits / k) as i64 + d).clamp(1, u32::MAX as i64) as u128;
+            Case::new("root", vec![Arg::Z(neg && n % 2 == 1, a), Arg::U(n)])
+        });
         prop_oneof![
-            60 => (prop_oneof![85 => Just(false), 15 => Just(true)], x, degree).prop_map(|(s, a, n)| Case::new("root", vec![Arg::Z(s, a), Arg::U(n as u128)])),
+            10 => band,
+            50 => (prop_oneof![85 => Just(false), 15 => Just(true)], x, degree).prop_map(|(s, a, n)| Case::new("root", vec![Arg::Z(s, a), Arg::U(n as u128)])),
             25 => perfect,
             15 => nearbits,
         ]
